@@ -15,7 +15,7 @@ func c10Parse(c *core.Ctx, sites []panicSite) {
 	c.Rule(rC10Type, "every forced type assertion on the result of Parser.Visit (directly or through a variable assigned once from it) succeeds: the argument's static type selects the grammar rule, Parser.Visit's type switch selects the visitor methods for the rule's kinds of node, and every value those methods can return - excluding returns that no parse tree allowed by Mangle.g4 reaches, and following nested Visit calls - is assignable to the asserted type; a possible nil result is a violation", 30)
 	c.Rule(rC10Child, "every child of a parse-tree node that a visitor method dereferences (passes to Visit, calls a method on) exists in every node the grammar allows at that point: the possible child vectors of the method's rule or labelled alternative are enumerated from Mangle.g4 and narrowed along the CFG by the method's nil and len tests", 40)
 	c.Rule(rC10Index, "constant indexes into child lists are below the number of such children in every node the grammar allows at that point, and slices of token texts stay within the minimal length of the token per the lexer rules", 6)
-	c.Rule(rC10Assert, "every other forced type assertion in parse/ is justified structurally: it repeats the type of the enclosing type-switch case, or it unpacks a sync.Pool whose New and every Put supply that type, or its operand's interface has exactly one implementation in the generated package", 30)
+	c.Rule(rC10Assert, "every other forced type assertion in parse/ is justified structurally: it repeats the type of the enclosing type-switch case, or it unpacks a sync.Pool whose New and every Put supply that type, or its operand's interface has exactly one implementation in the generated package", 0)
 	c.Rule(rC10Entry, "every exported entry point of parse/ visits the tree only after the error listener reported no syntax error: the call to Visit is preceded on every path by a check of Parser.error() that returns when it is non-nil, and the listener is attached to both lexer and parser", 5)
 	c.Rule(rC10Sync, "the generated package has a context type for every parser rule and labelled alternative of Mangle.g4, and Parser.Visit dispatches each of them", 1)
 	g, err := loadG4(c.Prog.Dir)
